@@ -594,7 +594,12 @@ pub fn build(kind: Kind, raw: i128, choices: &[u32], neg: u32) -> Built {
         let numeric = |v: u64, width: usize, plus_ok: bool, ch: &mut Ch, tags: &mut Vec<&'static str>, piece: &mut String, full: &mut bool| {
             if minus {
                 piece.push('-');
-                piece.push_str(&format!("{:0w$}", v.max(1), w = width));
+                // a zero keeps its minus sign half of the time ("-0", "-00": still no valid field)
+                let vv = if v == 0 && ch.flag(1, 2) { 0 } else { v.max(1) };
+                if vv == 0 {
+                    tags.push("minus-zero");
+                }
+                piece.push_str(&format!("{:0w$}", vv, w = if vv == 0 && ch.flag(1, 2) { 1 } else { width }));
                 *full = true;
                 return;
             }
